@@ -10,14 +10,7 @@ MODELLED_NOT_VERIFIED = [
     "third-party libraries (protobuf, snappy, md5, xxhash, natsort, golang-lru, hashicorp/memberlist, consul/etcd clients, net/http, grpc metadata, math/rand, sort, slices) are exercised by the correspondence check and otherwise trusted by contract",
 ]
 
-PROPS = {
-    "C20": {
-        "tables": True,
-        "input_fields": 2,
-        "rule": "exhaustive strings of length<=3 (thorough: 4) over the alphabet {a,Z,0,.,|,:,/,NUL,0xFF,=,-}; every byte alone / after a valid char / inside metadata; length boundaries 149..151,300; seeded structured strings (0-5 tenant parts, optional metadata, random bytes, one-byte mutations); transport chains of 0-6 hops through HTTP headers, gRPC metadata and the auth middlewares with pre-existing header values. A case is non-trivial unless it is a zero-hop chain; distinct = distinct canonical case line.",
-        "trivial_tag": r"hops=0",
-        "floor_quick": 3000,
-        "trusted": ["net/http Header Get/Set and grpc metadata in-process semantics (no wire encoding exercised)"],
-        "assumptions": ["the character tables and length limits in Generated/C20.lean are re-read from the running code through the public validators on every run and proved equal to the model's by `decide`"],
-    },
-}
+import glob, json, os
+PROPS = {}
+for _p in sorted(glob.glob(os.path.join(os.path.dirname(os.path.abspath(__file__)), "props.d", "C*.json"))):
+    PROPS[os.path.basename(_p)[:-5]] = json.load(open(_p))
